@@ -250,8 +250,8 @@ package gen
 //@ ghost field stringStats.has bool
 //@ ghost field stringOptionalStats.has bool
 
-// the accumulator marks "no value yet" with a reserved string
-//@ pred okStr(s) := s != nil && (!s.has ==> s.min == "__#NIL#__" && s.max == "__#NIL#__")
+// "set" is the accumulator's own record that a value has been added
+//@ pred okStr(s) := s != nil && s.set == s.has
 //@ func newStringStats
 //@   modifies nothing
 //@   ensures[C12] okStr(res) && freshsince(res) && !res.has
@@ -296,7 +296,7 @@ package gen
 //@   invariant[C12] i == rangeindex + 1 - cntLess(defs, rangeindex + 1, s.maxDef)
 //@   invariant[C12] forall j in 0..i: s.min <= vals[j] && vals[j] <= s.max
 //@   invariant[C12] old(s.has) ==> s.min <= old(s.min) && s.max >= old(s.max)
-//@   invariant[C12] s != nil && (!old(s.has) && i == 0 ==> s.min == "__#NIL#__" && s.max == "__#NIL#__")
+//@   invariant[C12] s != nil && s.set == (old(s.has) || i > 0)
 //@ func (*stringOptionalStats).Min
 //@   requires okStr(s)
 //@   modifies nothing
